@@ -217,7 +217,7 @@ def run_dir(prop):
 def print_assumptions(prop, prop_dir, theorems):
     """Ask Coq for the axioms each property theorem depends on.  Returns {theorem: [axioms]}."""
     d = run_dir(prop)
-    path = os.path.join(d, "Assumptions_%s.v" % prop)
+    path = os.path.join(d, "Assumptions_%s_p%d.v" % (prop, os.getpid()))
     with open(path, "w") as f:
         f.write("Require Import NV.%s.Props.\n" % prop_dir.replace("/", "."))
         for t in theorems:
